@@ -9,7 +9,7 @@ from . import result as R
 
 PROPERTY = "C19"
 META = {
-    "bounds": {"quick": "polynomial_detrend: symbolic series of n<=6 samples, orders 0..3 (and the short-input fallback); RMS: frequency grids of <=5 symbolic strictly increasing points, symbolic non-negative ASD values, symbolic band edges, every membership pattern by forking; additivity at every interior grid point, nesting with symbolic inner/outer bands; get_rms and df_detrend wiring",
+    "bounds": {"quick": "polynomial_detrend: symbolic series of n<=6 samples, orders 0..3 (and the short-input fallback); index arithmetic of polynomial_detrend on a record of SYMBOLIC length n<=10^6 (generic elements; np.arange(n) is an int64 array whose integer products/powers must not wrap), orders 2..5; RMS: frequency grids of <=5 symbolic strictly increasing points, symbolic non-negative ASD values, symbolic band edges, every membership pattern by forking; additivity at every interior grid point, nesting with symbolic inner/outer bands; get_rms and df_detrend wiring",
                "thorough": "n<=8, orders 0..5"},
     "outside": ["Parseval agreement with the time-domain RMS of broadband data (statistical clause)", "least-squares conditioning of np.polyfit in binary64"],
     "stubs": ["np.polyfit -> coefficients constrained by the normal equations on the concrete abscissae 0..n-1 (least-squares contract); np.polyval -> Horner; np.linalg.lstsq -> coefficients constrained by the normal equations", "scipy cumulative_trapezoid: the library's own code running on object arrays", "integral_rms/polynomial_detrend -> recorders when their callers are the subject"],
@@ -97,6 +97,50 @@ def ob_detrend_poly(W, n, order):
     y = W.reals("y", n)
     r1 = _detrend(W, y, order); r2 = _detrend(W, y + x, order)
     W.goal("residual unchanged by an added polynomial", W.And(*[W.eq(r1[i], r2[i]) for i in range(n)]))
+
+
+NMAX = 10 ** 6
+
+
+class _GenRecord(rnp.ndarray):
+    """a record of SYMBOLIC length n, represented by its generic elements [x_0, x_m, x_{m+1}, x_{n-1}] (the layout np.arange(n)
+    gets for a symbolic n); len() of it is the symbolic n inside the cloned code"""
+    _symlen = None
+
+    def __array_finalize__(self, obj):
+        self._symlen = getattr(obj, "_symlen", None)
+
+
+def ob_detrend_index_range(W, order):
+    """integer index arithmetic of polynomial_detrend stays inside int64 for every record length up to NMAX samples (np.arange(n) is an
+    int64 array: powers and products of it computed in integers wrap silently; the symbolic runs above have n <= 8)"""
+    import speckit.dsp as D
+    n = W.int("n", lo=order + 2, hi=NMAX)
+    if not W.sym:
+        nn = int(n)
+        t = rnp.arange(nn) / nn
+        x = t ** order + 0.5
+        r = D.polynomial_detrend(x, order)
+        ok = float(rnp.max(rnp.abs(r))) <= 1e-6
+        W.resolver = lambda name: ok
+        W.goal("long record: polynomial of degree<=order -> 0", ok, n=nn, residual=float(rnp.max(rnp.abs(r))))
+        return
+    xs = oarr([W.real("x_first"), W.real("x_m"), W.real("x_m1"), W.real("x_last")])
+    x = xs.view(_GenRecord)
+    x._symlen = n
+    coeff_stub = lambda t, y, deg, **k: oarr([SR(ctx.fresh("polyfit_c")) for _ in range(int(deg) + 1)])
+
+    def lstsq_free(A, b, rcond=None):
+        m = rnp.asarray(A, dtype=object).shape[1]
+        return oarr([SR(ctx.fresh("lstsq_c")) for _ in range(m)]), oarr([]), m, None
+    NP = NumpyShim(polyfit=coeff_stub, polyval=polyval_stub, linalg_lstsq=lstsq_free, asarray=lambda a, dtype=None, **k: a)
+    G = clone_module(D, dict(np=NP), builtins_extra={"len": (lambda o: o._symlen if getattr(o, "_symlen", None) is not None else len(o))})
+    try:
+        G["polynomial_detrend"](x, order)
+    except Exception as e:
+        W.note("run ended after the index arithmetic was recorded (%s: %s)" % (type(e).__name__, str(e)[:100]))
+    W.vc_goals("index arithmetic within int64 for n<=%d" % NMAX, kinds=("int64",))
+    W.goal("reached", True)
 
 
 def ob_df_detrend(W, inplace, order):
@@ -246,6 +290,8 @@ def obligations(tier):
             obs.append({"name": "detrend/n%d/order%d" % (n, order), "fn": "ob_detrend", "params": {"n": n, "order": order}, "fork": True, "max_paths": 8, "weight": n * (order + 1)})
             if n > order:
                 obs.append({"name": "detrend-poly/n%d/order%d" % (n, order), "fn": "ob_detrend_poly", "params": {"n": n, "order": order}, "fork": True, "max_paths": 8, "weight": n * (order + 1)})
+    for order in (2, 3, 4, 5):
+        obs.append({"name": "detrend-long-record/order%d" % order, "fn": "ob_detrend_index_range", "params": {"order": order}, "vacuity": False, "weight": 2})
     for inplace in (False, True):
         obs.append({"name": "df_detrend/%s" % ("inplace" if inplace else "suffix"), "fn": "ob_df_detrend", "params": {"inplace": inplace, "order": 2}, "vacuity": False})
     for n in ((2, 3, 4, 5) if tier == "quick" else (1, 2, 3, 4, 5, 6)):
